@@ -51,6 +51,29 @@ func directCheck(w *World, wo *WorldObs) (vs []lib.Violation, refs []*RefType) {
 		}
 		return GetObs{}, false
 	}
+	// which constructor the request is for, by the declaration alone: the named one takes a single Hash that
+	// gives only declared constructor attributes, well typed, and all required ones; everything else is a
+	// positional tuple (a Hash can be the value of an attribute of type Any)
+	takenNamed := func(r *NewReq) (bool, []KV) {
+		ref := refs[r.T]
+		if r.Named {
+			return ref == nil || namedAccepts(ref, r.Hash), r.Hash
+		}
+		if len(r.Args) == 1 && r.Args[0].K == "hash" && ref != nil && namedAccepts(ref, r.Args[0].H) {
+			return true, r.Args[0].H
+		}
+		return false, nil
+	}
+	counterpartOf := func(k string, src int) bool {
+		named, _ := takenNamed(&w.News[src])
+		switch k {
+		case "named-of":
+			return !named
+		case "positional-of":
+			return named
+		}
+		return true
+	}
 	for i := range wo.Objs {
 		r, o := &w.News[i], &wo.Objs[i]
 		if o.Err == "EFault" || o.Err == "EOtherPanic" {
@@ -58,10 +81,12 @@ func directCheck(w *World, wo *WorldObs) (vs []lib.Violation, refs []*RefType) {
 		}
 		if o.Err != "" {
 			// the counterpart of a successful construction must itself succeed
-			if k, src := originIndex(r.Origin); src >= 0 {
+			if k, src := originIndex(r.Origin); src >= 0 && counterpartOf(k, src) {
 				switch k {
 				case "named-of":
 					add("pos-named-equal", fmt.Sprintf("%s%s was constructed, the named construction %s%s with the same values is rejected with %s", w.Defs[r.T].Name, argsText(w.News[src].Args), w.Defs[r.T].Name, hashText(r.Hash), o.Err), typeTags(r.T)...)
+				case "positional-of":
+					add("pos-named-equal", fmt.Sprintf("%s%s was constructed, the positional construction %s%s with the same values is rejected with %s", w.Defs[r.T].Name, hashText(w.News[src].Hash), w.Defs[r.T].Name, argsText(r.Args), o.Err), typeTags(r.T)...)
 				case "roundtrip":
 					add("init-hash-roundtrip", fmt.Sprintf("the init-hash %s of a constructed %s is rejected by the constructor with %s", hashText(r.Hash), w.Defs[r.T].Name, o.Err), typeTags(r.T)...)
 				}
@@ -72,10 +97,10 @@ func directCheck(w *World, wo *WorldObs) (vs []lib.Violation, refs []*RefType) {
 		if o.ObsErr != "" {
 			add("get-given-or-default", fmt.Sprintf("reading the constructed %s raised %s: %s", reqText(w, r), o.ObsErr, o.ObsErrText), typeTags(r.T)...)
 		}
-		if k, src := originIndex(r.Origin); src >= 0 && wo.Objs[src].Err == "" {
+		if k, src := originIndex(r.Origin); src >= 0 && wo.Objs[src].Err == "" && counterpartOf(k, src) {
 			if wo.Eq[src][i] != 1 || wo.Eq[i][src] != 1 {
 				switch k {
-				case "named-of":
+				case "named-of", "positional-of":
 					add("pos-named-equal", fmt.Sprintf("%s and %s are not equal (Equals: %d / %d)", reqText(w, &w.News[src]), reqText(w, r), wo.Eq[src][i], wo.Eq[i][src]), typeTags(r.T)...)
 				case "roundtrip":
 					add("init-hash-roundtrip", fmt.Sprintf("%s rebuilt from its init-hash %s is not equal to it (Equals: %d / %d)", reqText(w, &w.News[src]), hashText(r.Hash), wo.Eq[src][i], wo.Eq[i][src]), typeTags(r.T)...)
@@ -88,13 +113,17 @@ func directCheck(w *World, wo *WorldObs) (vs []lib.Violation, refs []*RefType) {
 		}
 		// get-given-or-default
 		given := map[string]RV{}
-		if r.Named {
-			for _, kv := range r.Hash {
+		if named, h := takenNamed(r); named {
+			for _, kv := range h {
 				given[kv.K] = kv.V
 			}
 		} else {
+			args := r.Args
+			if r.Named {
+				args = []RV{vHash(r.Hash...)}
+			}
 			info := wo.Defs[r.T].Info
-			for k, a := range r.Args {
+			for k, a := range args {
 				if k < len(info) {
 					given[info[k].Name] = a
 				}
@@ -185,6 +214,25 @@ func directCheck(w *World, wo *WorldObs) (vs []lib.Violation, refs []*RefType) {
 		}
 	}
 	return vs, refs
+}
+
+// namedAccepts: the hash is a legal named-argument hash of the type as declared (only constructor
+// attributes, each value an instance of the declared type, every required attribute present).
+func namedAccepts(ref *RefType, h []KV) bool {
+	seen := map[string]bool{}
+	for _, kv := range h {
+		a, ok := ref.attr(kv.K)
+		if !ok || !a.ctor() || seen[kv.K] || !instOf(a.Ty, kv.V) {
+			return false
+		}
+		seen[kv.K] = true
+	}
+	for _, a := range ref.All {
+		if a.ctor() && !a.optional() && !seen[a.Name] {
+			return false
+		}
+	}
+	return true
 }
 
 func includesType(r *RefType) bool {
